@@ -74,7 +74,7 @@ func (e *cellEnv) build(kind string, base []crlgen.Entry, extra *big.Int) []byte
 
 func main() {
 	run := report.New("C16", "exploration")
-	run.Rule("cells = signature mode{unset,verify,verify_log,none} x CRL{signer resolvable, signer unknown, signature wrong} x intake{configured crl_urls at provision, configured crl_files at provision, first CDP fetch active, first CDP fetch background, CDP fetch retried after a failed first download (active / background), periodic refresh of an accepted CRL, refresh after restart, restart alone} x backend (216 cells, all run); each cell is a stepped history observed through strict probes / listed-serial probes / the Provision error; oracle: unset == verify; verify => in force iff resolvable and valid, on every path and after restart; verify_log/none => every parseable CRL in force, Provision succeeds, refresh brings new entries into force; non-trivial = cell whose decisive probe was reached; distinct = cell")
+	run.Rule("cells = signature mode{unset,verify,verify_log,none} x CRL{signer resolvable, signer unknown, signature wrong} x intake{configured crl_urls at provision, configured crl_files at provision, first CDP fetch active, first CDP fetch background, CDP fetch retried after a failed first download (active / background), periodic refresh of an accepted CRL, refresh after restart, restart alone} x backend (216 cells, all run); plus restarts under a stricter mode and with the trusted signer removed; each cell is a stepped history observed through strict probes / listed-serial probes / the Provision error; oracle: unset == verify; verify => in force iff resolvable and valid, on every path and after restart; verify_log/none => every parseable CRL in force, Provision succeeds, refresh brings new entries into force; non-trivial = cell whose decisive probe was reached; distinct = cell")
 	run.Assume("'signer unknown' = CRL under the issuer's name whose AKI names and whose signature is made by a sibling key that is neither in the chain nor configured; 'signature wrong' = last signature bit flipped", "unavailable origin = HTTP 500")
 	scratch, _ := report.Scratch("C16")
 	sut.QuietStderr(filepath.Join(scratch, "stderr.log"))
@@ -147,6 +147,21 @@ func main() {
 							run.NonTrivial(desc)
 						}
 					}
+				}
+			}
+		}
+		// and across a restart with the trusted signer removed from the configuration: under verify the
+		// persisted CRL of a configured location has no entitled signer any more
+		for _, backend := range backends {
+			for _, src := range []string{"crl_urls", "crl_files"} {
+				xn++
+				if xn%sn != si {
+					continue
+				}
+				run.Eval(1)
+				desc := fmt.Sprintf("restart-without-trusted-signer mode=verify source=%s backend=%s keys=%s", src, backend, round)
+				if e.restartWithoutSigner(run, src, backend, desc) {
+					run.NonTrivial(desc)
 				}
 			}
 		}
@@ -375,6 +390,52 @@ func (e *cellEnv) runCell(run *report.Run, mode, kind, intake, backend, desc, ke
 		return true
 	}
 	return false
+}
+
+func (e *cellEnv) restartWithoutSigner(run *report.Run, src, backend, desc string) bool {
+	e.n++
+	w := e.w
+	wd := filepath.Join(e.scratch, fmt.Sprintf("wdy%d", e.n))
+	_ = os.MkdirAll(wd, 0755)
+	defer os.RemoveAll(wd)
+	path := fmt.Sprintf("/y%d.crl", e.n)
+	base := gen.Entries(e.rng, gen.Opts{N: 5, SerialWidth: 8})
+	doc := e.build("resolvable", base, nil)
+	opts := l2.Opts{WorkDir: wd, Storage: backend, SigMode: "verify", Fetch: "actively", Trusted: []*x509.Certificate{w.Int.Cert}}
+	file := filepath.Join(e.scratch, fmt.Sprintf("y%d.crlfile", e.n))
+	defer os.Remove(file)
+	if src == "crl_urls" {
+		w.CRL.Set(path, origin.Good(doc))
+		opts.CRLUrls = []string{w.CRL.URL(path)}
+	} else {
+		_ = os.WriteFile(file, doc, 0644)
+		opts.CRLFiles = []string{file}
+	}
+	key := "restart-without-trusted-signer.verify"
+	chk, err := l2.Start(opts)
+	if err != nil {
+		run.Violation(key+".first-run-provision-failed", desc+": "+err.Error(), nil)
+		return false
+	}
+	// probe without the CA in the presented chain list (the client certificate alone)
+	probe := w.Leaf(base[1].Serial, nil, nil)[:1]
+	if rev, _ := chk.Ask(probe); !rev {
+		chk.Stop()
+		run.Violation(key+".first-run-not-in-force", desc+": the CRL of the trusted signer is not in force", nil)
+		return false
+	}
+	chk.Stop()
+	opts.Trusted = nil
+	chk2, err := l2.Start(opts)
+	if err != nil {
+		return true // refused at provisioning: not in force
+	}
+	defer chk2.Stop()
+	if rev, _ := chk2.Ask(probe); rev {
+		run.Violation(key+".in-force-after-restart."+backend, desc+": no signer is configured any more, yet the persisted CRL is in force after the restart", nil)
+		return false
+	}
+	return true
 }
 
 func (e *cellEnv) restartStricter(run *report.Run, first, kind, src, backend, desc string) bool {
